@@ -87,7 +87,12 @@ func (l *listener) AcceptWithContext(ctx context.Context) (net.Conn, error) {
 		}
 
 		if errors.Is(err, yamux.ErrSessionShutdown) || errors.Is(err, net.ErrClosed) {
-			return nil, ErrClosed
+			// The session is also reported as closed when the server closes
+			// the connection, so only stop if the listener itself was closed,
+			// otherwise reconnect.
+			if l.closeCtx.Err() != nil {
+				return nil, ErrClosed
+			}
 		}
 
 		l.logger.Warn("disconnected; reconnecting", zap.Error(err))
